@@ -102,6 +102,11 @@ def lin(e):
         if ca is None or cb is None or (va and vb):
             return None, None
         return ca + cb, va or vb
+    if k == 'binop' and e[1].replace('WithOverflow', '') == 'Sub':
+        (ca, va), (cb, vb) = lin(e[2]), lin(e[3])
+        if ca is None or cb is None or vb:
+            return None, None
+        return ca - cb, va
     if k == 'call' and e[4].get('name') == 'len' and e[2]:
         p = access_path(e[2][0])
         return (0, 'len(%s)' % p) if p else (None, None)
